@@ -253,6 +253,20 @@ def dedup : List (List Char) → List (List Char) → List (List Char)
 
 def parseBuildTags (flags : List (List Char)) : List (List Char) := dedup [] (collectTags flags)
 
+/-! ### internal/clang: the argument vector handed to the compiler / linker
+
+`Cmd.Compile(args…)` runs `app (split $CCFLAGS) (split $CFLAGS) cfg.CCFLAGS cfg.CFLAGS args`, `Cmd.Link(args…)` runs
+`app (split $CCFLAGS) (split $LDFLAGS) cfg.LDFLAGS args`; an unset or empty variable contributes nothing; nothing is
+removed, reordered or de-duplicated. -/
+
+def envFlags (v : List Byte) : List (List Byte) := if v.isEmpty then [] else splitFlags v
+
+def compileArgv (envCC envC : List Byte) (cfgCC cfgC args : List (List Byte)) : List (List Byte) :=
+  envFlags envCC ++ envFlags envC ++ cfgCC ++ cfgC ++ args
+
+def linkArgv (envCC envLD : List Byte) (cfgLD args : List (List Byte)) : List (List Byte) :=
+  envFlags envCC ++ envFlags envLD ++ cfgLD ++ args
+
 /-! ### `CheckTags`: which `// +build` expressions hold under the tags of the command line
 
 `buildtags.CheckTags` writes one virtual file `// +build <expr>` per requested expression and asks `go/build`'s
